@@ -119,8 +119,16 @@ func vhResponse(sel int, tcp bool, p, q int) (frame []byte, want Response) {
 	return vhSpecADU(tcp, tid, unit, pdu), want
 }
 
-func vhC02Judge(frame []byte, want, got Response, err error, label string) {
-	vndAssert(err == nil && got != nil, label+": well-formed response is accepted")
+// mustAccept is false for register payloads with an odd byte count: the format allows the value, a conforming device
+// never sends it, so the parser may refuse the frame - but what it accepts must still come back byte for byte.
+func vhC02Judge(frame []byte, want, got Response, err error, label string, mustAccept bool) {
+	if mustAccept {
+		vndAssert(err == nil && got != nil, label+": well-formed response is accepted")
+	} else if err != nil {
+		vndCover("odd-byte-count-refused")
+		vndAssert(got == nil || vndIsNilPtr(got), label+": a refused frame yields no response value")
+		return
+	}
 	if err != nil || got == nil {
 		return
 	}
@@ -151,15 +159,16 @@ func VH_C02_decode() {
 	tcp := vndParam("tcp") == 1
 	frame, want := vhResponse(sel, tcp, vndParam("p"), vndParam("q"))
 	vndCover("well-formed")
+	must := !((sel == 2 || sel == 3 || sel == 9) && vndParam("p")%2 != 0)
 	if tcp {
 		got, err := ParseTCPResponse(frame)
-		vhC02Judge(frame, want, got, err, "ParseTCPResponse")
+		vhC02Judge(frame, want, got, err, "ParseTCPResponse", must)
 		return
 	}
 	got, err := ParseRTUResponse(frame)
-	vhC02Judge(frame, want, got, err, "ParseRTUResponse")
+	vhC02Judge(frame, want, got, err, "ParseRTUResponse", must)
 	got, err = ParseRTUResponseWithCRC(frame)
-	vhC02Judge(frame, want, got, err, "ParseRTUResponseWithCRC")
+	vhC02Judge(frame, want, got, err, "ParseRTUResponseWithCRC", must)
 }
 
 // VH_C02_exception_wellformed: every well-formed exception ADU yields the typed error with the frame's fields.
@@ -244,4 +253,29 @@ func VH_C02_bytecount_mismatch() {
 	}
 	vndCover("mismatch")
 	vndAssert(err != nil, "length disagreeing with the byte-count field is rejected")
+}
+
+// VH_C02_decode_twice: parsing is a function of the frame alone - a frame parsed after another one (same function,
+// its own arbitrary contents) decodes exactly, and the value parsed first is not changed by the second parse (no
+// scratch buffer or cache shared between calls).
+func VH_C02_decode_twice() {
+	sel := vndParam("sel")
+	tcp := vndParam("tcp") == 1
+	frameA, wantA := vhResponse(sel, tcp, vndParam("p"), vndParam("q"))
+	frameB, wantB := vhResponse(sel, tcp, vndParam("p"), vndParam("q"))
+	parse := func(f []byte) (Response, error) {
+		if tcp {
+			return ParseTCPResponse(f)
+		}
+		return ParseRTUResponseWithCRC(f)
+	}
+	gotA, errA := parse(frameA)
+	vhC02Judge(frameA, wantA, gotA, errA, "first parse", true)
+	if errA != nil || gotA == nil {
+		return
+	}
+	gotB, errB := parse(frameB)
+	vndCover("second-parse")
+	vhC02Judge(frameB, wantB, gotB, errB, "second parse", true)
+	vndAssert(vhEqualBytes(gotA.Bytes(), frameA), "a response parsed earlier still re-encodes to its own frame after another frame has been parsed")
 }
